@@ -165,10 +165,19 @@ struct GSig {
 	explicit GSig(BitWidth w) : sig(w) {}   // not yet driven: the first assignment closes the loop for earlier readers
 };
 
+struct GBit {
+	Bit sig;
+	std::set<int> labels;
+	bool used = false;
+	explicit GBit(const Bit &b) : sig(b) {}
+};
+
 struct Gen {
 	Rng &rng;
 	std::vector<GClock> clocks;
 	std::vector<std::unique_ptr<GSig>> pool;
+	std::vector<std::unique_ptr<GBit>> bits;                  // single-bit signals: conditions, enables, flags
+	std::vector<std::unique_ptr<Memory<UInt>>> localMems;
 	struct Placeholder { GSig *s; size_t clk; };
 	std::vector<Placeholder> placeholders;
 	bool intent = false;             // generator's ground truth: the design contains an unmarked / wrongly marked crossing
@@ -434,10 +443,8 @@ struct Gen {
 				UInt r = allowClockDomainCrossing(a.sig, clocks[src].clk, clocks[dstDecl].clk);
 				GSig &m = add(r, { clocks[dstDecl].ps });
 				// consume it in the destination domain right away
-				m.used = true;
-				meet({ &m.labels }, clocks[dst].ps);
-				ClockScope cs(clocks[dst].clk);
-				add(reg(m.sig), { clocks[dst].ps }); hist["cross.marked"]++;
+				hist["cross.marked"]++;
+				consumeUInt(m, dst, true);
 			}
 		} else if (how < 75) {
 			// marker with arbitrary (often wrong) declared clocks
@@ -445,14 +452,315 @@ struct Gen {
 			meet({ &a.labels }, clocks[src].ps);
 			UInt r = allowClockDomainCrossing(a.sig, clocks[src].clk, clocks[dstDecl].clk);
 			GSig &m = add(r, { clocks[dstDecl].ps });
-			m.used = true;
-			meet({ &m.labels }, clocks[dst].ps);
-			ClockScope cs(clocks[dst].clk);
-			add(reg(m.sig), { clocks[dst].ps }); hist["cross.marked.random"]++;
+			hist["cross.marked.random"]++;
+			consumeUInt(m, dst, false);
 		} else {
 			meet({ &a.labels }, clocks[dst].ps);
 			ClockScope cs(clocks[dst].clk);
 			add(reg(a.sig), { clocks[dst].ps }); hist["cross.unmarked"]++;
+		}
+	}
+
+	// ---- single-bit signals and the uses of crossing-marker outputs -------------------------------------------------
+
+	// everything but the choice of the marker's clocks is built disciplined in these statements
+	struct Calm {
+		Gen &g; unsigned pct; bool now;
+		explicit Calm(Gen &gen) : g(gen), pct(gen.wildPct), now(gen.wildNow) { g.wildPct = 0; g.wildNow = false; }
+		~Calm() { g.wildPct = pct; g.wildNow = now; }
+	};
+
+	static int domainOfBit(const GBit &s) {
+		if (s.labels.empty()) return -2;
+		if (s.labels.size() == 1 && *s.labels.begin() != UNK) return *s.labels.begin();
+		return -3;
+	}
+	static std::set<int> uni(std::initializer_list<const std::set<int>*> l) {
+		std::set<int> r; for (auto *x : l) r.insert(x->begin(), x->end()); return r;
+	}
+
+	GBit &addBit(const Bit &b, std::set<int> labels) {
+		bits.push_back(std::make_unique<GBit>(b));
+		bits.back()->labels = std::move(labels);
+		if (rng.chance(1, 3)) bits.back()->sig.setName("b" + std::to_string(nameCtr++));
+		return *bits.back();
+	}
+
+	// a non-constant 4-bit signal of exactly domain `ps`, different from the ones in `excl`
+	GSig &pickData(int ps, std::vector<GSig*> &excl) {
+		for (int t = 0; t < 30; t++) {
+			auto &s = *pool[rng.below(pool.size())];
+			if (domainOf(s) != ps || std::find(excl.begin(), excl.end(), &s) != excl.end()) continue;
+			s.used = true; excl.push_back(&s); return s;
+		}
+		GSig &n = newInput(pickClockOfPs(ps));
+		excl.push_back(&n); return n;
+	}
+
+	// a fresh flag of domain `ps`, derived from a multi-bit signal
+	GBit &newBit(int ps) {
+		std::vector<GSig*> ex;
+		GSig &a = pickData(ps, ex);
+		hist["bit.from"]++;
+		switch (rng.below(5)) {
+			case 0: return addBit(a.sig.lsb(), a.labels);
+			case 1: return addBit(a.sig.msb(), a.labels);
+			case 2: return addBit(a.sig == ConstUInt(rng.below(16), 4_b), a.labels);
+			case 3: return addBit(a.sig != ConstUInt(rng.below(16), 4_b), a.labels);
+			default: { GSig &b = pickData(ps, ex); meet({ &a.labels, &b.labels }); return addBit(a.sig < b.sig, uni({ &a.labels, &b.labels })); }
+		}
+	}
+	GBit &pickBit(int ps) {
+		for (int t = 0; t < 10 && !bits.empty(); t++) {
+			auto &b = *bits[rng.below(bits.size())];
+			if (domainOfBit(b) == ps) { b.used = true; return b; }
+		}
+		GBit &b = newBit(ps); b.used = true; return b;
+	}
+
+	// logic in front of / behind a marker: what the rewriting passes of post-processing look for (negations, conjunctions, no-ops)
+	GBit &decorate(GBit &c, int ps, const char *where) {
+		if (ps < 0) return c;
+		c.used = true;
+		unsigned k = (unsigned)rng.below(12);
+		std::string h = std::string("bit.logic.") + where + ".";
+		if (k < 4) { hist[h + "none"]++; return c; }
+		if (k == 4 || k == 5) { hist[h + "not"]++; GBit &r = addBit(!c.sig, c.labels); r.used = true; return r; }
+		if (k == 6) { hist[h + "notnot"]++; Bit n = !c.sig; GBit &r = addBit(!n, c.labels); r.used = true; return r; }
+		if (k == 7) { hist[h + "noop"]++; Bit one = '1'; Bit zero = '0'; GBit &r = addBit(rng.chance(1, 2) ? (c.sig & one) : (c.sig | zero), c.labels); r.used = true; return r; }
+		GBit *pp = &pickBit(ps);
+		for (int t = 0; t < 5 && pp == &c; t++) pp = &pickBit(ps);
+		if (pp == &c) pp = &newBit(ps);
+		GBit &p2 = *pp; p2.used = true;
+		meet({ &c.labels, &p2.labels });
+		Bit r;
+		switch (k) {
+			case 8: hist[h + "and"]++; r = c.sig & p2.sig; break;
+			case 9: hist[h + "or"]++; r = c.sig | p2.sig; break;
+			case 10: hist[h + "andnot"]++; r = !c.sig & p2.sig; break;
+			default: hist[h + "xor"]++; r = c.sig ^ p2.sig; break;
+		}
+		GBit &res = addBit(r, uni({ &c.labels, &p2.labels })); res.used = true; return res;
+	}
+
+	Memory<UInt> &newLocalMem() {
+		localMems.push_back(std::make_unique<Memory<UInt>>(16, UInt(4_b)));
+		localMems.back()->noConflicts();
+		return *localMems.back();
+	}
+
+	// a flag `c` (usually the output of a marker, possibly behind some logic) is used in the domain of clock `dst`
+	void consumeBit(GBit &c, size_t dst) {
+		Calm calm(*this);
+		c.used = true;
+		int D = clocks[dst].ps;
+		std::vector<GSig*> ex;
+		GSig &x0 = pickData(D, ex), &a = pickData(D, ex), &b = pickData(D, ex);
+		ClockScope cs(clocks[dst].clk);
+		unsigned k = (unsigned)rng.below(12);
+		switch (k) {
+			case 0: { // IF condition directly
+				meet({ &c.labels, &x0.labels, &a.labels });
+				UInt x = x0.sig; IF(c.sig) x = a.sig;
+				add(x, uni({ &c.labels, &x0.labels, &a.labels })); hist["use.if"]++; break;
+			}
+			case 1: { // negated condition
+				meet({ &c.labels, &x0.labels, &a.labels });
+				UInt x = x0.sig; IF(!c.sig) x = a.sig;
+				add(x, uni({ &c.labels, &x0.labels, &a.labels })); hist["use.if.not"]++; break;
+			}
+			case 2: { // IF / ELSE
+				meet({ &c.labels, &x0.labels, &a.labels, &b.labels });
+				UInt x = x0.sig; IF(c.sig) x = a.sig; ELSE x = b.sig;
+				add(x, uni({ &c.labels, &x0.labels, &a.labels, &b.labels })); hist["use.if.else"]++; break;
+			}
+			case 3: { // the same condition in two sequential IFs
+				meet({ &c.labels, &x0.labels, &a.labels, &b.labels });
+				UInt x = x0.sig; IF(c.sig) x = a.sig; IF(c.sig) x = b.sig;
+				add(x, uni({ &c.labels, &x0.labels, &a.labels, &b.labels })); hist["use.if.twice"]++; break;
+			}
+			case 4: { // condition and its negation in sequential IFs
+				meet({ &c.labels, &x0.labels, &a.labels, &b.labels });
+				UInt x = x0.sig; IF(c.sig) x = a.sig; IF(!c.sig) x = b.sig;
+				add(x, uni({ &c.labels, &x0.labels, &a.labels, &b.labels })); hist["use.if.then.ifnot"]++; break;
+			}
+			case 5: { // nested conditions
+				GBit &c2 = pickBit(D);
+				meet({ &c.labels, &c2.labels, &x0.labels, &a.labels });
+				UInt x = x0.sig;
+				if (rng.chance(1, 2)) { IF(c.sig) { IF(c2.sig) x = a.sig; } } else { IF(c2.sig) { IF(!c.sig) x = a.sig; } }
+				add(x, uni({ &c.labels, &c2.labels, &x0.labels, &a.labels })); hist["use.if.nested"]++; break;
+			}
+			case 6: { // register enable
+				meet({ &a.labels, &c.labels }, D);
+				UInt r;
+				ENIF(c.sig) r = reg(a.sig);
+				add(r, { D }); hist["use.enable"]++; break;
+			}
+			case 7: { // write enable of a memory port
+				auto &m = newLocalMem();
+				meet({ &c.labels, &a.labels, &b.labels }, D);
+				IF(c.sig) m[a.sig] = b.sig;
+				meet({ &x0.labels }, D);
+				UInt r = m[x0.sig];
+				add(r, x0.labels); hist["use.mem.enable"]++; break;
+			}
+			case 8: { // selector of an explicit multiplexer
+				meet({ &c.labels, &a.labels, &b.labels });
+				UInt r = mux(c.sig, { a.sig, b.sig });
+				add(r, uni({ &c.labels, &a.labels, &b.labels })); hist["use.mux"]++; break;
+			}
+			case 9: { // data: packed next to other bits, then registered
+				meet({ &c.labels, &a.labels });
+				UInt r = cat(c.sig, a.sig.lower(3_b));
+				std::set<int> l = uni({ &c.labels, &a.labels });
+				meet({ &l }, D);
+				add(reg(r), { D }); hist["use.data"]++; break;
+			}
+			case 10: { // registered flag, then condition (the plain synchroniser shape)
+				meet({ &c.labels }, D);
+				Bit f = reg(c.sig);
+				std::set<int> fl{ D };
+				meet({ &fl, &x0.labels, &a.labels });
+				UInt x = x0.sig; IF(f) x = a.sig;
+				add(x, uni({ &fl, &x0.labels, &a.labels })); hist["use.reg.if"]++; break;
+			}
+			default: { // condition shared by two different statements, once negated
+				meet({ &c.labels, &x0.labels, &a.labels, &b.labels });
+				UInt x = x0.sig; IF(c.sig) x = a.sig;
+				UInt y = b.sig; IF(!c.sig) y = x0.sig;
+				add(x, uni({ &c.labels, &x0.labels, &a.labels }));
+				add(y, uni({ &c.labels, &x0.labels, &b.labels })); hist["use.if.shared"]++; break;
+			}
+		}
+	}
+
+	// a flag crosses into another domain: logic, marker (chain), logic, use
+	void stBitCross() {
+		bool w = wild();
+		Calm calm(*this);
+		size_t srcC = pickClock();
+		int S = clocks[srcC].ps;
+		GBit *s = &pickBit(S);
+		s = &decorate(*s, S, "before");
+		size_t dst = pickClock();
+		for (int t = 0; t < 4 && clocks[dst].ps == S; t++) dst = pickClock();
+		GBit *c = s;
+		unsigned how = w ? 50 + (unsigned)rng.below(50) : 0;
+		if (!w) {
+			size_t src = pickClockOfPs(S), dstDecl = pickClockOfPs(clocks[dst].ps);
+			meet({ &s->labels }, clocks[src].ps);
+			c = &addBit(allowClockDomainCrossing(s->sig, clocks[src].clk, clocks[dstDecl].clk), { clocks[dstDecl].ps });
+			hist["bitcross.marked"]++;
+			if (rng.chance(1, 4)) { // marker feeding another marker, optionally with logic in between
+				c = &decorate(*c, clocks[dst].ps, "between");
+				size_t dst2 = pickClock();
+				size_t src2 = pickClockOfPs(clocks[dst].ps), dstDecl2 = pickClockOfPs(clocks[dst2].ps);
+				meet({ &c->labels }, clocks[src2].ps);
+				c->used = true;
+				c = &addBit(allowClockDomainCrossing(c->sig, clocks[src2].clk, clocks[dstDecl2].clk), { clocks[dstDecl2].ps });
+				dst = dst2; hist["bitcross.chain"]++;
+			}
+		} else if (how < 75) {
+			size_t src = pickClock(), dstDecl = pickClock();
+			meet({ &s->labels }, clocks[src].ps);
+			c = &addBit(allowClockDomainCrossing(s->sig, clocks[src].clk, clocks[dstDecl].clk), { clocks[dstDecl].ps });
+			hist["bitcross.marked.random"]++;
+		} else hist["bitcross.unmarked"]++;
+		c = &decorate(*c, clocks[dst].ps, "after");
+		consumeBit(*c, dst);
+	}
+
+	// plain flag logic inside one domain (also grows the pool of flags)
+	void stBitLogic() {
+		Calm calm(*this);
+		int ps = clocks[pickClock()].ps;
+		GBit &c = decorate(pickBit(ps), ps, "local");
+		if (rng.chance(1, 2)) consumeBit(c, pickClockOfPs(ps));
+		else c.used = false;
+	}
+
+	// a multi-bit marker output `m` is used in the domain of clock `dst`; `clean`: the marker is known to be correct
+	void consumeUInt(GSig &m, size_t dst, bool clean) {
+		Calm calm(*this);
+		m.used = true;
+		int D = clocks[dst].ps;
+		std::vector<GSig*> ex{ &m };
+		GSig &x0 = pickData(D, ex), &a = pickData(D, ex);
+		ClockScope cs(clocks[dst].clk);
+		unsigned k = (unsigned)rng.below(clean ? 12 : 10);
+		switch (k) {
+			case 0: case 1: case 2: { // register (the usual case)
+				meet({ &m.labels }, D);
+				add(rng.chance(1, 2) ? reg(m.sig) : reg(m.sig, 0), { D }); hist["muse.reg"]++; break;
+			}
+			case 3: { // data input of a multiplexer
+				GBit &c = pickBit(D);
+				meet({ &c.labels, &x0.labels, &m.labels });
+				UInt x = x0.sig;
+				if (rng.chance(1, 2)) { IF(c.sig) x = m.sig; } else { IF(!c.sig) x = m.sig; }
+				add(x, uni({ &c.labels, &x0.labels, &m.labels })); hist["muse.mux.data"]++; break;
+			}
+			case 4: { // arithmetic with a signal of the destination domain
+				meet({ &m.labels, &a.labels });
+				add(rng.chance(1, 2) ? UInt(m.sig + a.sig) : UInt(a.sig ^ m.sig), uni({ &m.labels, &a.labels })); hist["muse.arith"]++; break;
+			}
+			case 5: { // address of a read port, the memory being written in the destination domain
+				auto &mm = newLocalMem();
+				meet({ &x0.labels, &a.labels }, D);
+				mm[x0.sig] = a.sig;
+				meet({ &m.labels }, D);
+				UInt r = mm[m.sig];
+				add(r, m.labels); hist["muse.mem.raddr"]++; break;
+			}
+			case 6: { // address or data of a write port
+				auto &mm = newLocalMem();
+				meet({ &m.labels, &a.labels }, D);
+				if (rng.chance(1, 2)) mm[m.sig] = a.sig; else mm[a.sig] = m.sig;
+				meet({ &x0.labels }, D);
+				UInt r = mm[x0.sig];
+				add(r, x0.labels); hist["muse.mem.write"]++; break;
+			}
+			case 7: { // comparison, then condition
+				meet({ &m.labels, &x0.labels, &a.labels });
+				UInt x = x0.sig;
+				if (rng.chance(1, 2)) { IF(m.sig == ConstUInt(rng.below(16), 4_b)) x = a.sig; } else { IF(!m.sig.lsb()) x = a.sig; }
+				add(x, uni({ &m.labels, &x0.labels, &a.labels })); hist["muse.compare.if"]++; break;
+			}
+			case 8: { // no-op logic / rewires, then register
+				UInt r;
+				switch (rng.below(3)) {
+					case 0: r = cat(m.sig.upper(2_b), m.sig.lower(2_b)); break;
+					case 1: { UInt n = ~m.sig; r = ~n; break; }
+					default: r = m.sig.lower(2_b); r = zext(r, 4_b); break;
+				}
+				meet({ &m.labels }, D);
+				add(reg(r), { D }); hist["muse.noop.reg"]++; break;
+			}
+			case 9: { // marker feeding another marker
+				size_t dst2 = pickClock();
+				size_t src2 = pickClockOfPs(D), dstDecl2 = pickClockOfPs(clocks[dst2].ps);
+				meet({ &m.labels }, clocks[src2].ps);
+				GSig &m2 = add(allowClockDomainCrossing(m.sig, clocks[src2].clk, clocks[dstDecl2].clk), { clocks[dstDecl2].ps });
+				m2.used = true;
+				meet({ &m2.labels }, clocks[dst2].ps);
+				ClockScope cs2(clocks[dst2].clk);
+				add(reg(m2.sig), { clocks[dst2].ps }); hist["muse.chain"]++; break;
+			}
+			case 10: { // constant condition (folded by post-processing): only with a marker known to be right
+				Bit t = rng.chance(1, 2) ? '1' : '0';
+				meet({ &x0.labels, &m.labels });
+				UInt x = x0.sig; IF(t) x = m.sig;
+				std::set<int> l = uni({ &x0.labels, &m.labels });
+				meet({ &l }, D);
+				add(reg(x), { D }); hist["muse.constcond"]++; break;
+			}
+			default: { // enable derived from the marker output
+				meet({ &a.labels, &m.labels }, D);
+				UInt r;
+				ENIF(m.sig.msb()) r = reg(a.sig);
+				add(r, { D }); hist["muse.enable"]++; break;
+			}
 		}
 	}
 
@@ -542,18 +850,20 @@ struct Gen {
 		for (size_t i = 0; i < nst; i++) {
 			wildNow = (i == faultAt);
 			unsigned k = (unsigned)rng.below(100);
-			if (wildNow && k >= 86) k = 71 + (unsigned)rng.below(15); // the one fault is a crossing attempt
-			if (k < 10) stInput();
-			else if (k < 15) stConst();
-			else if (k < 33) stBinary();
-			else if (k < 40) stUnary();
-			else if (k < 50) stMux();
-			else if (k < 62) stReg();
-			else if (k < 66) stRegEnable();
-			else if (k < 71) stPlaceholder();
-			else if (k < 86) stCross();
-			else if (k < 91) stMem();
-			else if (k < 95) stPinOut(pickSig(true));
+			if (wildNow && (k < 60 || k >= 84)) k = 60 + (unsigned)rng.below(24); // the one fault is a crossing attempt
+			if (k < 8) stInput();
+			else if (k < 12) stConst();
+			else if (k < 26) stBinary();
+			else if (k < 31) stUnary();
+			else if (k < 39) stMux();
+			else if (k < 49) stReg();
+			else if (k < 52) stRegEnable();
+			else if (k < 56) stPlaceholder();
+			else if (k < 60) stBitLogic();
+			else if (k < 72) stCross();
+			else if (k < 84) stBitCross();
+			else if (k < 89) stMem();
+			else if (k < 93) stPinOut(pickSig(true));
 			else stScope();
 		}
 		wildNow = false;
@@ -568,13 +878,21 @@ struct Gen {
 		// nothing may be culled: every signal nobody reads goes to an output pin
 		size_t n = pool.size();
 		for (size_t i = 0; i < n; i++) if (!pool[i]->used) stPinOut(*pool[i]);
+		for (auto &b : bits) if (!b->used) {
+			b->used = true;
+			int d = domainOfBit(*b);
+			size_t c = d >= 0 ? pickClockOfPs(d) : pickClock();
+			meet({ &b->labels }, clocks[c].ps);
+			ClockScope cs(clocks[c].clk);
+			pinOut(b->sig).setName("ob" + std::to_string(nameCtr++)); hist["pinOut.bit"]++;
+		}
 	}
 };
 
 // ------------------------------------------------------------------------------------------------
 
 // hand-written designs with known verdict (the upstream unit tests of tests/frontend/CDC.cpp, pinned out, plus the corner cases of the property)
-static const int numFixed = 10;
+static const int numFixed = 16;
 static bool buildFixed(int which, std::map<std::string, unsigned> &hist)
 {
 	Clock clock1({ .absoluteFrequency = 10'000 });
@@ -653,6 +971,54 @@ static bool buildFixed(int which, std::map<std::string, unsigned> &hist)
 			UInt c = (a ^ 5) + (~b);
 			UInt d = allowClockDomainCrossing(c, clock1, clock2);
 			out(d, clock2, "d");
+			return true;
+		}
+		case 10: { // negated flag -> marker -> IF condition (post-processing removes negations in front of mux selectors: it must not look through the marker)
+			UInt fa = in(clock1, "fa"), a = in(clock2, "ia"), b = in(clock2, "ib");
+			Bit busyA; { ClockScope cs(clock1); busyA = reg(fa.lsb(), '0'); }
+			Bit idleB = allowClockDomainCrossing(!busyA, clock1, clock2);
+			UInt x = b; IF(idleB) x = a;
+			{ ClockScope cs(clock2); x = reg(x, 0); }
+			out(x, clock2, "x");
+			return false;
+		}
+		case 11: { // flag -> marker -> negation -> IF condition, IF / ELSE
+			UInt fa = in(clock1, "fa"), a = in(clock2, "ia"), b = in(clock2, "ib");
+			Bit f = allowClockDomainCrossing(fa.msb(), clock1, clock2);
+			UInt x = b; IF(!f) x = a; ELSE x = a + b;
+			out(x, clock2, "x");
+			return false;
+		}
+		case 12: { // negations on both sides of the marker, the same condition in sequential IFs and once negated
+			UInt fa = in(clock1, "fa"), a = in(clock2, "ia"), b = in(clock2, "ib");
+			Bit f = !allowClockDomainCrossing(!(fa == 3), clock1, clock2);
+			UInt x = b; IF(f) x = a; IF(f) x = a ^ b; IF(!f) x = a + b;
+			out(x, clock2, "x");
+			return false;
+		}
+		case 13: { // marker output as register enable and as memory write enable
+			UInt fa = in(clock1, "fa"), a = in(clock2, "ia"), b = in(clock2, "ib");
+			Bit f = allowClockDomainCrossing(!fa.lsb(), clock1, clock2);
+			Memory<UInt> mem(16, UInt(8_b));
+			UInt r, q;
+			{ ClockScope cs(clock2); ENIF(f) r = reg(a); IF(!f) mem[b.lower(4_b)] = a; q = mem[a.lower(4_b)]; }
+			out(r, clock2, "r"); out(q, clock2, "q");
+			return false;
+		}
+		case 14: { // conjunction in front of the marker, a chain of two markers, explicit multiplexer behind it
+			Clock clock3({ .absoluteFrequency = 20'000 });
+			UInt fa = in(clock1, "fa"), a = in(clock3, "ia"), b = in(clock3, "ib");
+			Bit f = allowClockDomainCrossing(fa.lsb() & !fa.msb(), clock1, clock2);
+			Bit g = allowClockDomainCrossing(!f, clock2, clock3);
+			UInt x = mux(g, { a, b });
+			out(x, clock3, "x");
+			return false;
+		}
+		case 15: { // as 10, but the marker is declared the wrong way round
+			UInt fa = in(clock1, "fa"), a = in(clock2, "ia"), b = in(clock2, "ib");
+			Bit idleB = allowClockDomainCrossing(!fa.lsb(), clock2, clock1);
+			UInt x = b; IF(idleB) x = a;
+			out(x, clock2, "x");
 			return true;
 		}
 		default: { // a long correctly marked chain through a hierarchy, with register feedback
